@@ -54,6 +54,8 @@ inductive Node where
   | defn (m : Name) (body : List Node)
   | call (m : Name)
   | matchT (tag : Name) (body : List Node)
+  /-- `${select('*|text()')}` in a match template body: the content of the matched element -/
+  | select
   | include (href : Href) (cls : Kind) (hasFb : Bool) (fb : List Node) (pos : Name)
   | inlined (body : List Node)
 
@@ -172,6 +174,7 @@ def prepN (files : Files) (J : PJ) (inl : List Name) : Node → Cache → Res (L
   | .text s, c => .ok ([.text s], c)
   | .var x, c => .ok ([.var x], c)
   | .call m, c => .ok ([.call m], c)
+  | .select, c => .ok ([.select], c)
   | .elem t b, c => (prepL files J inl b c).bind fun r => .ok ([.elem t r.1], r.2)
   | .cond cd b, c => (prepL files J inl b c).bind fun r => .ok ([.cond cd r.1], r.2)
   | .loop x xs b, c => (prepL files J inl b c).bind fun r => .ok ([.loop x xs r.1], r.2)
@@ -268,6 +271,9 @@ structure St where
   macros : List (Name × List Node)
   mts : List (Name × List Node)
   cache : Cache
+  /-- contents of the matched elements whose match template bodies are being rendered (innermost
+  first): what `select` returns -/
+  sel : List (List Ev) := []
 
 def St.lookup (st : St) (x : Name) : Option Value :=
   match st.frames.lookup x with
@@ -339,6 +345,7 @@ def eraseN : Node → List Node
   | .text s => [.text s]
   | .var x => [.var x]
   | .call m => [.call m]
+  | .select => [.select]
   | .elem t b => [.elem t (eraseL b)]
   | .cond c b => [.cond c (eraseL b)]
   | .loop x xs b => [.loop x xs (eraseL b)]
@@ -369,6 +376,17 @@ def loadT (m : Mode) (files : Files) (name : Name) (cls : Kind) (st : St) : Res 
   | .inlineM => (loadInl files name cls st.cache).map fun r => (r.1, { st with cache := r.2 })
   | .inlineU => (loadInl files name cls st.cache).map fun r => (eraseL r.1, { st with cache := r.2 })
 
+/-- an event list read back as a forest of elements and text (`acc`: the current level, reversed;
+`st`: the enclosing levels); events `_match` sees when selected content is spliced into a body -/
+def evsToNodesAux : List Ev → List Node → List (List Node) → List Node
+  | [], acc, _ => acc.reverse
+  | .text s :: es, acc, st => evsToNodesAux es (.text s :: acc) st
+  | .start _ :: es, acc, st => evsToNodesAux es [] (acc :: st)
+  | .stop t :: es, acc, parent :: st => evsToNodesAux es (.elem t acc.reverse :: parent) st
+  | .stop _ :: es, acc, [] => evsToNodesAux es acc []
+
+def evsToNodes (evs : List Ev) : List Node := evsToNodesAux evs [] []
+
 /-- entering another stream (included template, macro body, match template body) at lower fuel -/
 abbrev RJ := Rng → List Node → St → R
 
@@ -387,8 +405,11 @@ def renderN (inl : Mode) (files : Files) (J : RJ) (rng : Rng) : Node → St → 
       (renderL inl files J rng body st).bind fun r => .ok (.start tag :: r.1 ++ [.stop tag], r.2)
     | some (idx, mb) =>
       -- the matched element is consumed: its content is evaluated (buffered) under the match
-      -- templates up to this one, then the template body replaces it, open to the later ones
-      (renderL inl files J ⟨rng.lo, some (idx + 1), false⟩ body st).bind fun r => J ⟨idx + 1, none, false⟩ mb r.2
+      -- templates up to this one and kept for `select`, then the template body replaces it, open
+      -- to the later ones
+      (renderL inl files J ⟨rng.lo, some (idx + 1), false⟩ body st).bind fun r =>
+        (J ⟨idx + 1, none, false⟩ mb { r.2 with sel := r.1 :: r.2.sel }).bind fun r' =>
+          .ok (r'.1, { r'.2 with sel := r'.2.sel.tail })
   | .cond c body, st =>
     (evalCond st c).bind fun b => if b then renderL inl files J rng body st else .ok ([], st)
   | .loop x xs body, st =>
@@ -403,6 +424,11 @@ def renderN (inl : Mode) (files : Files) (J : RJ) (rng : Rng) : Node → St → 
       | none => .err .undefined
       | some _ => .err .unmodelled
   | .matchT tag body, st => .ok ([], { st with mts := st.mts ++ [(tag, body)] })
+  | .select, st =>
+    -- the selected events are spliced into the body and pass its match filter like its own events
+    match st.sel with
+    | [] => .err .undefined
+    | c :: _ => J rng (evsToNodes c) st
   | .include href cls hasFb fb pos, st =>
     (evalHref st href).bind fun h =>
       match resolve pos h with
@@ -429,7 +455,7 @@ def render (inl : Mode) (files : Files) : Nat → RJ
   | 0, _, _, _ => .fuel
   | f + 1, rng, ns, st => renderL inl files (render inl files f) rng ns st
 
-def St.init (data : List (Name × Value)) : St := ⟨[], data, [], [], []⟩
+def St.init (data : List (Name × Value)) : St := ⟨[], data, [], [], [], []⟩
 
 /-- `TemplateLoader(dirs, auto_reload=True).load(entry, cls=kind).generate(**data)` as events -/
 def renderRuntime (files : Files) (entry : Name) (kind : Kind) (data : List (Name × Value)) (fuel : Nat) :
@@ -473,7 +499,7 @@ def renderSeq (m : Mode) (files : Files) (fuel : Nat) : Cache → List Req → L
 mutual
 /-- resolved targets of the statically named includes in a stream, at any depth -/
 def targetsN : Node → List Name
-  | .text _ | .var _ | .call _ => []
+  | .text _ | .var _ | .call _ | .select => []
   | .elem _ b | .cond _ b | .loop _ _ b | .defn _ b | .matchT _ b | .inlined b => targetsL b
   | .include (.static h) _ _ fb pos => (match resolve pos h with | some t => [t] | none => []) ++ targetsL fb
   | .include (.dyn _) _ _ fb _ => targetsL fb
@@ -489,7 +515,7 @@ end
 mutual
 /-- every match template is written for a tag in `T` -/
 def tagsOkN (T : List Name) : Node → Bool
-  | .text _ | .var _ | .call _ => true
+  | .text _ | .var _ | .call _ | .select => true
   | .elem _ b | .cond _ b | .loop _ _ b | .defn _ b | .inlined b => tagsOkL T b
   | .matchT t b => decide (t ∈ T) && tagsOkL T b
   | .include _ _ _ fb _ => tagsOkL T fb
@@ -505,7 +531,7 @@ mutual
 rewrite (tag in `T`) nor inside a match template body (`zone`): there the run-time include
 restarts the match filter while inlined content inherits the restricted one (finding C11-match-range) -/
 def zoneFreeN (T : List Name) (zone : Bool) : Node → Bool
-  | .text _ | .var _ => true
+  | .text _ | .var _ | .select => true
   | .call _ => !zone
   | .elem t b => zoneFreeL T (zone || decide (t ∈ T)) b
   | .cond _ b | .loop _ _ b | .inlined b => zoneFreeL T zone b
@@ -523,7 +549,7 @@ end
 mutual
 /-- statically named includes are relative and name the class of their target -/
 def clsOkN (files : Files) : Node → Bool
-  | .text _ | .var _ | .call _ => true
+  | .text _ | .var _ | .call _ | .select => true
   | .elem _ b | .cond _ b | .loop _ _ b | .defn _ b | .matchT _ b | .inlined b => clsOkL files b
   | .include (.dyn _) _ _ fb _ => clsOkL files fb
   | .include (.static h) cls _ fb pos =>
@@ -546,7 +572,7 @@ template is included at run time, not when it is inlined — finding C11-match-r
 elements or match templates (no syntax for them), includes of text templates only -/
 def textualN : Node → Bool
   | .text _ | .var _ => true
-  | .call _ | .elem _ _ | .matchT _ _ => false
+  | .call _ | .elem _ _ | .matchT _ _ | .select => false
   | .cond _ b | .loop _ _ b | .defn _ b | .inlined b => textualL b
   | .include _ cls _ fb _ => decide (cls = .text) && textualL fb
 termination_by structural n => n
@@ -567,7 +593,7 @@ def inH (T : List Name) (files : Files) : Bool :=
 
 mutual
 def matchTagsN : Node → List Name
-  | .text _ | .var _ | .call _ => []
+  | .text _ | .var _ | .call _ | .select => []
   | .elem _ b | .cond _ b | .loop _ _ b | .defn _ b | .inlined b => matchTagsL b
   | .matchT t b => t :: matchTagsL b
   | .include _ _ _ fb _ => matchTagsL fb
